@@ -122,27 +122,70 @@ Section C15.
   Proof. exact (results_refine prep). Qed.
 End C15.
 
-(* FINDING (genuine defect, outside the sequential histories of the theorems
-   above; found by the harness's concurrent stream): the background re-preparer
-   (_reprepare_and_update_cache) reads the cache entry, awaits the preparer and
-   then stores the entry it had read.  If an offer of a newer version completes
-   in between, the cache goes back to the old version and spec: "lookups then
-   return the result for the most recently offered version" is false for that
-   interleaving.  [rp_begin]/[rp_end] are the two halves of the function. *)
-Theorem C15_reprepare_race_refuted :
-  exists (prep : key -> json -> nat -> presult) (cls : nat) (name : string) (spec1 spec2 : json),
-    let k := (cls, name) in
-    let m v := Meta (Some name) (Some v) true in
-    let s1 := fst (step prep (Offer cls (m "1") spec1 None) init) in
-    exists read p started s2,
-      rp_begin prep k s1 = Some (read, p, started, s2) /\
-      let s3 := fst (step prep (Offer cls (m "2") spec2 None) s2) in
-      (exists v, snd (step prep (Offer cls (m "2") spec2 None) s2) = RValue v /\
-                 option_map e_version (lookup k (cache s3)) = Some "2") /\
-      let s4 := rp_end k read p started s3 in
-      option_map e_version (lookup k (cache s4)) = Some "1" /\
-      option_map e_spec (lookup k (cache s4)) = Some spec1.
-Proof. exact reprepare_overwrites_newer_offer. Qed.
+(* A background re-prepare that OVERLAPS other operations (outside the sequential
+   histories above; cache._reprepare_and_update_cache as repaired by 033ed5d —
+   before that commit it stored the entry it had read before awaiting the
+   preparer, and an offer of a newer version completing in between was lost:
+   found by the harness's concurrent stream, see notes/C15.md).
+   [rp_begin] is the function up to its await (reads the entry, calls the
+   preparer), [rp_end] the rest; [ops] is whatever runs while the preparer is
+   suspended; [stamped s0] (every cached entry carries a clock reading older
+   than the clock) holds in every reachable state ([C15_stamped]). *)
+Section C15_reprepare.
+  Variable prep : key -> json -> nat -> presult.
+
+  Theorem C15_stamped : forall ops, stamped (run prep ops init).
+  Proof. intros ops. apply run_stamped, init_stamped. Qed.
+
+  (* if the key's entry is no longer exactly the entry that was read — offered
+     again or deleted meanwhile — finishing the re-prepare changes neither the
+     cache nor the preparer log: "latest wins" survives the overlap *)
+  Theorem C15_reprepare_respects_newer_state : forall k s0 read p started s1 ops,
+    stamped s0 ->
+    rp_begin prep k s0 = Some (read, p, started, s1) ->
+    let s2 := run prep ops s1 in
+    lookup k (cache s2) <> Some read ->
+    cache (rp_end k read p started s2) = cache s2 /\ preps (rp_end k read p started s2) = preps s2.
+  Proof. exact (reprepare_respects_newer_state prep). Qed.
+
+  (* a newer version offered meanwhile stays *)
+  Theorem C15_reprepare_keeps_newer_version : forall k s0 read p started s1 ops e,
+    stamped s0 -> rp_begin prep k s0 = Some (read, p, started, s1) ->
+    lookup k (cache (run prep ops s1)) = Some e -> e_version e <> e_version read ->
+    lookup k (cache (rp_end k read p started (run prep ops s1))) = Some e.
+  Proof. exact (reprepare_keeps_newer_version prep). Qed.
+
+  (* an entry deleted meanwhile is not resurrected *)
+  Theorem C15_reprepare_does_not_resurrect : forall k s0 read p started s1 ops,
+    stamped s0 -> rp_begin prep k s0 = Some (read, p, started, s1) ->
+    lookup k (cache (run prep ops s1)) = None ->
+    lookup k (cache (rp_end k read p started (run prep ops s1))) = None.
+  Proof. exact (reprepare_does_not_resurrect prep). Qed.
+
+  (* otherwise the re-prepared result replaces the old one under the SAME version and spec *)
+  Theorem C15_reprepare_updates_same_version : forall k s0 read p started s1 ops v,
+    rp_begin prep k s0 = Some (read, p, started, s1) ->
+    lookup k (cache (run prep ops s1)) = Some read -> value_of_presult p = Some v ->
+    lookup k (cache (rp_end k read p started (run prep ops s1))) =
+      Some (Entry (e_spec read) v (e_version read) started (e_sysdata read)).
+  Proof. exact (reprepare_updates_same_version prep). Qed.
+End C15_reprepare.
+
+(* regression for the repaired defect: the interleaving that used to leave
+   version "1" (and a deleted entry resurrected) now leaves "2" / nothing *)
+Example C15_reprepare_race_regression :
+  let prep := fun (_ : key) (_ : json) (n : nat) => POk n false in
+  let m v := Meta (Some "x") (Some v) true in
+  let s1 := fst (step prep (Offer 0 (m "1") (JStr "spec-v1") None) init) in
+  exists read p started s2,
+    rp_begin prep (0, "x") s1 = Some (read, p, started, s2) /\
+    let s3 := fst (step prep (Offer 0 (m "2") (JStr "spec-v2") None) s2) in
+    let s4 := rp_end (0, "x") read p started s3 in
+    option_map e_version (lookup (0, "x") (cache s4)) = Some "2" /\
+    option_map e_spec (lookup (0, "x") (cache s4)) = Some (JStr "spec-v2") /\
+    let s3' := fst (step prep (Delete 0 "x" None) s2) in
+    lookup (0, "x") (cache (rp_end (0, "x") read p started s3')) = None.
+Proof. exact reprepare_race_regression. Qed.
 
 (* non-vacuity: a preparer that succeeds on even invocations and fails on odd
    ones; versions go v1 -> v1 -> v2 (failure cached) -> v1 (prepared again),
@@ -175,4 +218,8 @@ Print Assumptions C15_frame.
 Print Assumptions C15_keys_unique.
 Print Assumptions C15_refines_map.
 Print Assumptions C15_results_refine.
-Print Assumptions C15_reprepare_race_refuted.
+Print Assumptions C15_stamped.
+Print Assumptions C15_reprepare_respects_newer_state.
+Print Assumptions C15_reprepare_keeps_newer_version.
+Print Assumptions C15_reprepare_does_not_resurrect.
+Print Assumptions C15_reprepare_updates_same_version.
